@@ -97,7 +97,11 @@ func vfCheckAddRule(root *path, d0 *fakeMethod, tmpl string, pre bool) {
 				resolves = false
 			}
 		}
-		conflict := pre && t.verb == "" && len(t.items) == 2 && t.items[0].kind == itLit && t.items[0].lit == "aa" && t.items[1].kind == itStar
+		// same trie node as the pre-registered GET /aa/{g}: top-level literal "aa", then one bare '*' or a
+		// variable with pattern "*" (a variable spanning "aa/*" lives on a different node)
+		tl := refTopLevel(t)
+		conflict := pre && t.verb == "" && len(tl) == 2 && !tl[0].isVar && tl[0].item.kind == itLit && tl[0].item.lit == "aa" &&
+			((tl[1].isVar && tl[1].pat == "*") || (!tl[1].isVar && tl[1].item.kind == itStar))
 		switch {
 		case msgField:
 			vfCover("message-field")
